@@ -10,6 +10,6 @@ let () =
           (match Hashtbl.find_opt handlers cmd with
            | Some f -> (try f args with e -> "EXC " ^ Printexc.to_string e)
            | None -> "ERR unknown " ^ cmd) in
-      print_string ans; print_char '\n'
+      print_string ans; print_char '\n'; flush stdout
     done
   with End_of_file -> ()
